@@ -102,6 +102,10 @@ class WordEval:
                 for t in s.targets:
                     if isinstance(t, ast.Name):
                         env[t.id] = v
+                    elif isinstance(t, ast.Tuple) and isinstance(v, tuple) and len(v) == len(t.elts) and all(isinstance(x, ast.Name) for x in t.elts) \
+                            and isinstance(s.value, ast.Tuple):
+                        for x, vx in zip(t.elts, v):
+                            env[x.id] = vx
                     else:
                         raise Unsupported(f"assignment target {norm(t)} in solve_for_observables")
             elif isinstance(s, ast.If):
@@ -117,7 +121,8 @@ class WordEval:
                             self.problems.append(f"branches of `if {norm(s.test)}` give different {k}: {a} vs {b}")
                         env[k] = a
                     elif a is not None and b is not None:
-                        env[k] = a
+                        # two function values (a transfer function chosen per backend): whichever is called, the results must agree
+                        env[k] = a if a == b or not (self.is_fn(a) and self.is_fn(b)) else ("choice", [a, b])
                     else:
                         env[k] = a if a is not None else b
             elif isinstance(s, ast.Return):
@@ -126,11 +131,43 @@ class WordEval:
                 raise Unsupported(f"statement {type(s).__name__} in solve_for_observables")
         return None
 
+    @staticmethod
+    def is_fn(v):
+        return isinstance(v, tuple) and v and v[0] in ("fn", "choice", "dictget") or (isinstance(v, tuple) and v and v[0] == "attr"
+                                                                                       and v[1] in ("cupy.asnumpy", "cupy.asarray"))
+
+    def call_value(self, f, args, node, env):
+        """call of a function value: a private module-level function (its body is evaluated), a choice of several (all are evaluated
+        and must agree), a host/device transfer (identity on the words)"""
+        if f[0] == "choice":
+            outs = [self.call_value(g, args, node, env) for g in f[1]]
+            lins = [o for o in outs if isinstance(o, Lin)]
+            if len(lins) == len(outs) and any(o != lins[0] for o in lins[1:]):
+                self.problems.append(f"the alternatives of `{norm(node)[:60]}` give different results: {[str(o) for o in lins]}")
+            return outs[0]
+        if f[0] == "attr" and f[1] in ("cupy.asnumpy", "cupy.asarray"):
+            return args[0]
+        if f[0] == "fn":
+            fn_ = f[1]
+            params = [a_.arg for a_ in fn_.args.args]
+            if len(params) != len(args):
+                raise Unsupported(f"call {norm(node)} with {len(args)} arguments")
+            r = self.block([s_ for s_ in fn_.body], dict(zip(params, args)))
+            if r is None:
+                raise Unsupported(f"{fn_.name} returns nothing")
+            return r
+        raise Unsupported(f"call {norm(node)} in solve_for_observables")
+
     def ev(self, e, env):
         if isinstance(e, ast.Name):
             if e.id in env:
                 return env[e.id]
+            mod_fn = self.fi.module.functions.get(e.id) if hasattr(self.fi.module, "functions") else None
+            if mod_fn is not None and e.id.startswith("_"):
+                return ("fn", mod_fn.node)
             return ("name", e.id)
+        if isinstance(e, ast.Dict):
+            return ("dict", [self.ev(v_, env) for v_ in e.values])
         if isinstance(e, ast.Attribute):
             base = self.ev(e.value, env)
             if base == ("ops",) and e.attr in OPMAP:
@@ -141,6 +178,8 @@ class WordEval:
                 return ("ops",)
             if base == ("name", "self") and e.attr == "mu_boundary":
                 return Lin({("mub",): 1})
+            if isinstance(base, tuple) and base and base[0] == "dict" and e.attr == "get":
+                return ("dictget", base[1])
             return ("attr", norm(e))
         if isinstance(e, ast.Tuple):
             return tuple(self.ev(x, env) for x in e.elts)
@@ -171,6 +210,11 @@ class WordEval:
                 return self.lin(self.ev(e.args[1], env), e.args[1]).apply("Linv")
             if isinstance(f, tuple) and f[0] == "attr" and f[1] in ("cupy.asnumpy", "cupy.asarray"):
                 return self.ev(e.args[0], env)
+            if isinstance(f, tuple) and f and f[0] == "dictget" and len(e.args) == 2:
+                # table.get(<run-time key>, default): any entry or the default
+                return ("choice", list(f[1]) + [self.ev(e.args[1], env)])
+            if isinstance(f, tuple) and f and f[0] in ("fn", "choice") and not e.keywords:
+                return self.call_value(f, [self.ev(a_, env) for a_ in e.args], e, env)
             raise Unsupported(f"call {norm(e)} in solve_for_observables")
         if isinstance(e, ast.Compare) or isinstance(e, ast.BoolOp):
             return ("flag", norm(e))
